@@ -130,9 +130,12 @@ StoragePipe(pos, mask, full) ==
        [] k = 10 -> << Mod("last", TRUE, "o", "obs", "photon", 0, 0) >> \o (IF pos = 5 THEN << ld >> ELSE << >>)
        [] OTHER  -> << >> ]
 PartialStored == [Stored0 EXCEPT !["photon"] = EMPTY, !["signal"] = EMPTY, !["scene"] = EMPTY]
+\* a file whose detector carries no processed data (an empty tree) and no image: what the running detector
+\* held in those buckets must go as well
+NoDataStored == [Stored0 EXCEPT !["data"] = EMPTY, !["image"] = EMPTY]
 FamStorage(_z) ==
   { [Cfg(StoragePipe(pos, mask, TRUE), TimesOf(n), 0, nd, NoPrior) EXCEPT !.stored = st] :
-      pos \in 1 .. 5, mask \in {-1}, n \in 1 .. MAXSTEPS, nd \in BOOLEAN, st \in {Stored0, PartialStored} }
+      pos \in 1 .. 5, mask \in {-1}, n \in 1 .. MAXSTEPS, nd \in BOOLEAN, st \in {Stored0, PartialStored, NoDataStored} }
 
 \* ---- family "opaque": models of unknown effect (anything in any bucket, or a failure)
 OpaquePipe(sa, sb) ==
@@ -181,7 +184,7 @@ MCToggle  == IsSession /\ \E gg \in {2, 5}, mm \in 1 .. 2 : Toggle(gg, mm)
 MCSetArgs == IsSession /\ \E gg \in {2}, a \in {"p", "r"} : SetArgs(gg, 1, a)
 MCResched == IsSession /\ \E n \in 1 .. MAXSTEPS, nd \in BOOLEAN : Reschedule(TimesOf(n), 0, nd)
 \* sessions of the storage family: the detector file is rewritten between runs
-MCRewrite == FAMILY = "storage" /\ (Restart \/ \E st \in {Stored0, PartialStored} : Rewrite(st))
+MCRewrite == FAMILY = "storage" /\ (Restart \/ \E st \in {Stored0, PartialStored, NoDataStored} : Rewrite(st))
 MCSpec == MCInit /\ [][MCNext \/ MCRestart \/ MCToggle \/ MCSetArgs \/ MCResched \/ MCRewrite]_vars
 
 \* Flux instance: with start offset the times are shifted so that T(k) - start
